@@ -1,4 +1,5 @@
 import Proofs.C11
+import Proofs.TieC11
 #print axioms DI.C11.vsort_perm
 #print axioms DI.C11.vsort_ordered
 #print axioms DI.C11.rank_min_spec
@@ -18,3 +19,7 @@ import Proofs.C11
 #print axioms DI.C11.vunique_first_occurrence
 #print axioms DI.C11.vunique_each_value_once
 #print axioms DI.C11.key_order_is_preorder
+#print axioms DI.Tie.C11.sort_code
+#print axioms DI.Tie.C11.unique_code
+#print axioms DI.Tie.C11.optimize_for_argsort_code
+#print axioms DI.Tie.C11.rank_code
